@@ -147,26 +147,30 @@ theorem maybeReadSize_print (s : Size USz) (hw : sizeWf s = true)
     cases e <;>
       simp [printSize, maybeReadSize, parseSize, eqIC_SIZE_SIZE, printExt, h1, canonSize]
   | range a b e =>
-    simp only [sizeWf, Bool.and_eq_true, Bool.not_eq_true', Bool.and_eq_false_iff,
-      beq_eq_false_iff_ne] at hw
-    obtain ⟨⟨ha, hb⟩, hany⟩ := hw
+    simp only [sizeWf, Bool.and_eq_true] at hw
+    obtain ⟨ha, hb⟩ := hw
     obtain ⟨h1, h1n⟩ := sizeStart_print a ha
     obtain ⟨h2, h2n⟩ := sizeStop_print b hb
     by_cases hab : a = .lit 0 ∧ b = .lit SIZE_MAX
-    · have he : e = false := by
-        cases hany with
-        | inl h => cases h with
-          | inl h => exact absurd hab.1 h
-          | inr h => exact absurd hab.2 h
-        | inr h => exact h
-      subst he
-      obtain ⟨ha0, hb0⟩ := hab
+    · obtain ⟨ha0, hb0⟩ := hab
       subst ha0 hb0
       have hA : sizeBound (printSizeBound (.lit 0)) "MIN" 0 = none := by
         rw [← Option.isNone_iff_eq_none, h1n]; simp
       have hB : sizeBound (printSizeBound (.lit SIZE_MAX)) "MAX" SIZE_MAX = none := by
         rw [← Option.isNone_iff_eq_none, h2n]; simp
-      simp [printSize, maybeReadSize, parseSize, eqIC_SIZE_SIZE, printExt, hA, hB, canonSize]
+      cases e with
+      | false =>
+        simp [printSize, maybeReadSize, parseSize, eqIC_SIZE_SIZE, printExt, hA, hB, canonSize]
+      | true =>
+        -- `(0..MAX, ...)`: not the no-constraint shortcut (no `)` follows), the extensible range
+        have hne : ((LitOrRef.lit 0 : USz) = .lit SIZE_MAX) = False := by
+          simp [SIZE_MAX]
+        have hext : maybeExtensible (Token.sep ',' :: Token.sep '.' :: Token.sep '.' :: Token.sep '.' ::
+            Token.sep ')' :: Token.sep ')' :: rest) = .ok (true, Token.sep ')' :: Token.sep ')' :: rest) := by
+          have := maybeExtensible_print true (Token.sep ')' :: rest)
+          simpa [printExt] using this
+        simp [printSize, maybeReadSize, parseSize, eqIC_SIZE_SIZE, printExt, hA, hB, canonSize,
+          sizeStartOr0, hext, hne]
     · have hnn : ((sizeBound (printSizeBound a) "MIN" 0).isNone &&
           (sizeBound (printSizeBound b) "MAX" SIZE_MAX).isNone) = false := by
         rw [h1n, h2n]
@@ -174,11 +178,12 @@ theorem maybeReadSize_print (s : Size USz) (hw : sizeWf s = true)
         by_cases h : a = .lit 0
         · right; exact fun hb' => hab ⟨h, hb'⟩
         · left; exact h
+      have hab' : ¬ (a = .lit 0 ∧ b = .lit SIZE_MAX ∧ e = false) := fun h => hab ⟨h.1, h.2.1⟩
       simp only [printSize, maybeReadSize, parseSize, List.cons_append, nextIsSep_cons, eqSep_sep,
         beq_self_eq_true, if_true, nextTextEqIC_cons, eqTextIC_text, eqIC_SIZE_SIZE, FR.bind_ok,
         nextSepEq_cons, nextOrErr_cons, peekIsSep_cons, Bool.not_true, Bool.false_eq_true,
         if_false, dots_succ_dot, dots_zero, hnn, List.append_assoc, List.nil_append,
-        maybeExtensible_print, h1, h2, canonSize, hab]
+        maybeExtensible_print, h1, h2, canonSize, hab', Bool.false_and]
       by_cases hEq : a = b
       · simp [hEq]
       · simp [hEq]
